@@ -237,7 +237,8 @@ class Trellis34:
         out: array = array("B")
 
         for i in range(0, len(original), 3):
-            out.append(ba2int(original[i : i + 3], signed=False))
+            # read the three bits in index order, whatever the storage endianness of the input
+            out.append(ba2int(bitarray(original[i : i + 3], endian="big"), signed=False))
         out.append(0)
 
         return out
